@@ -6,10 +6,11 @@ from .vals import (Val, NONE, I, B, R, Z, Func, Closure, Bound, Cls, Builtin, Tu
                    Unsupported, fresh, ref, strv, STRINGS, cls_of, str_contains, str_of, py_pow)
 from .state import Event
 
-__all__ = ["opaque_operator", "compare_order", "compare_eq", "contains", "binop", "typed_attr", "py_op"]
+__all__ = ["str_format", "opaque_operator", "compare_order", "compare_eq", "contains", "binop", "typed_attr", "py_op"]
 
 # Python operators on opaque operands: uninterpreted function of the operator name and operands
 # (C17: a body `OP(result, args)` equals the spec term for all values).  May raise (A-EXC).
+str_format = z3.Function("str_format", I, Val, I)       # "fmt" % operand, as a string id
 py_op = z3.Function("py_op", I, Val, Val, Val)
 py_op_raises = z3.Function("py_op_raises", I, Val, Val, B)
 py_op_exc = z3.Function("py_op_exc", I, Val, Val, Val)
@@ -178,8 +179,12 @@ def binop(engine, st, fr, op, a, b, node):
         yield st, Z(r, "int" if r.sort() == I else "num")
         return
     if opn == "Mod" and (isinstance(a, str) or (isinstance(a, Z) and a.ty == "str")):
-        # %-formatting: an opaque pure string (DESIGN 2.2 item 4)
-        yield st, Z(Val.strv(fresh("fmt", I)), "str")
+        # %-formatting: an opaque pure function of the format string and the operand (DESIGN 2.2 item 4)
+        try:
+            bv = engine.to_val(st, b)
+        except Unsupported:
+            bv = fresh("fmt_operand", Val)
+        yield st, Z(Val.strv(str_format(Val.sid(engine.to_val(st, a)), bv)), "str")
         return
     if opn == "Add":
         from . import b_cont
